@@ -82,33 +82,48 @@ def writeCell (loc : Nat) (v : Val) : M Unit := fun s =>
 
 def freshId : M Nat := fun s => (.ok s.nextId, { s with nextId := s.nextId + 1 })
 
-/-! ### equality (`PartialEq for Variable`): by content; functions and cells by identity -/
+/-! ### equality (`PartialEq for Variable`): by content; functions and cells by identity.
+    Arrays compare their elements only (the stored element type is a tag), structs as maps. -/
+set_option linter.unusedSimpArgs false in
 mutual
-partial def veq : Val → Val → Bool
+def veq : Val → Val → Bool
   | .bool a, .bool b => a == b
   | .int a, .int b => a == b
-  | .float a, .float b => a == b
+  | .float a, .float b => F64.feq a b
   | .str a, .str b => a == b
   | .unit, .unit => true
   | .arr _ as, .arr _ bs => veqL as bs
   | .tup as, .tup bs => veqL as bs
-  | .struct fa, .struct fb => fa.length == fb.length && fa.all fun (k, v) =>
-      match fb.find? (fun p => p.1 == k) with
-      | some (_, w) => veq v w
-      | none => false
+  | .struct fa, .struct fb => fa.length == fb.length && veqF fa fb
   | .cell a _, .cell b _ => a == b
   | .fn a .., .fn b .. => a == b
   | _, _ => false
-partial def veqL : List Val → List Val → Bool
+termination_by a b => Val.size a + Val.size b
+decreasing_by all_goals (simp only [Val.size, Val.sizeL, Val.sizeF]; omega)
+def veqL : List Val → List Val → Bool
   | [], [] => true
   | a :: as, b :: bs => veq a b && veqL as bs
   | _, _ => false
+termination_by as bs => Val.sizeL as + Val.sizeL bs
+decreasing_by all_goals (simp only [Val.size, Val.sizeL, Val.sizeF]; omega)
+/-- every field of the first map is in the second with an equal value (`HashMap` equality, given
+    equal sizes) -/
+def veqF : List (String × Val) → List (String × Val) → Bool
+  | [], _ => true
+  | (k, v) :: fa, fb => veqField k v fb && veqF fa fb
+termination_by fa fb => Val.sizeF fa + Val.sizeF fb
+decreasing_by all_goals (simp only [Val.size, Val.sizeL, Val.sizeF]; omega)
+def veqField (k : String) (v : Val) : List (String × Val) → Bool
+  | [] => false
+  | (k', w) :: fb => if k == k' then veq v w else veqField k v fb
+termination_by fb => Val.size v + Val.sizeF fb
+decreasing_by all_goals (simp only [Val.size, Val.sizeL, Val.sizeF]; omega)
 end
 
 /-! ### `Variable::of_type`: the default value used by `~` and `? T` after exhaustion.
     For a union the implementation takes the first member in hash order; here: list order. -/
 partial def ofType : Ty → Option Val
-  | .bool => some (.bool false) | .int => some (.int 0) | .float => some (.float 0.0)
+  | .bool => some (.bool false) | .int => some (.int 0) | .float => some (.float F64.zero)
   | .str => some (.str "") | .void => some .unit | .any => some .unit | .never => none
   | .fn ps r => (ofType r).map fun v =>
       .fn 0 ((ps.zipIdx).map fun (p : Ty × Nat) => (s!"p{p.2}", p.1)) r [.ret (some (.var "$returned"))]
@@ -131,26 +146,26 @@ def concatArrays (t1 : Ty) (a : List Val) (t2 : Ty) (b : List Val) : Val :=
 def binScalar (op : BinOp) (a b : Val) : Except Sig Val :=
   match op, a, b with
   | .add, .int x, .int y => ofScalar (Gen.add.interp x y)
-  | .add, .float x, .float y => .ok (.float (x + y))
+  | .add, .float x, .float y => .ok (.float (F64.fadd x y))
   | .add, .str x, .str y => .ok (.str (x ++ y))
   | .add, .arr t1 x, .arr t2 y => .ok (concatArrays t1 x t2 y)
   | .sub, .int x, .int y => ofScalar (Gen.subtract.interp x y)
-  | .sub, .float x, .float y => .ok (.float (x - y))
+  | .sub, .float x, .float y => .ok (.float (F64.fsub x y))
   | .mul, .int x, .int y => ofScalar (Gen.multiply.interp x y)
-  | .mul, .float x, .float y => .ok (.float (x * y))
+  | .mul, .float x, .float y => .ok (.float (F64.fmul x y))
   | .div, .int x, .int y => ofScalar (Gen.divide.interp x y)
-  | .div, .float x, .float y => .ok (.float (x / y))
+  | .div, .float x, .float y => .ok (.float (F64.fdiv x y))
   | .mod, .int x, .int y => ofScalar (Gen.modulo.interp x y)
   | .pow, .int x, .int y => ofScalar (Gen.pow.interp x y)
-  | .pow, .float x, .float y => .ok (.float (Float.pow x y))
+  | .pow, .float x, .float y => .ok (.float (F64.fpow x y))
   | .gt, .int x, .int y => ofScalar (Gen.greater.interp x y)
   | .ge, .int x, .int y => ofScalar (Gen.greater_equal.interp x y)
   | .lt, .int x, .int y => ofScalar (Gen.lower.interp x y)
   | .le, .int x, .int y => ofScalar (Gen.lower_equal.interp x y)
-  | .gt, .float x, .float y => .ok (.bool (x > y))
-  | .ge, .float x, .float y => .ok (.bool (x ≥ y))
-  | .lt, .float x, .float y => .ok (.bool (x < y))
-  | .le, .float x, .float y => .ok (.bool (x ≤ y))
+  | .gt, .float x, .float y => .ok (.bool (F64.flt y x))
+  | .ge, .float x, .float y => .ok (.bool (F64.fle y x))
+  | .lt, .float x, .float y => .ok (.bool (F64.flt x y))
+  | .le, .float x, .float y => .ok (.bool (F64.fle x y))
   | .eq, x, y => .ok (.bool (veq x y))
   | .ne, x, y => .ok (.bool (!veq x y))
   | .band, .int x, .int y => ofScalar (Gen.bitwise_and.interp x y)
@@ -204,7 +219,7 @@ def preScalar (op : PreOp) (v : Val) : Except Sig Val :=
   | .not, .bool b => .ok (.bool (!b))
   | .not, .int i => .ok (.int (Gen.not.eval i))
   | .neg, .int i => .ok (.int (Gen.unary_minus.eval i))
-  | .neg, .float f => .ok (.float (-f))
+  | .neg, .float f => .ok (.float (F64.fneg f))
   | _, _ => .error (.wrong "prefix operator applied to an operand of the wrong kind")
 
 /-! ### helper closures, transcribed from the source texts the implementation parses
@@ -273,7 +288,7 @@ def eval : Nat → Env → Expr → M Val
     match e with
     | .litBool b => pure (.bool b)
     | .litInt i => pure (.int (BitVec.ofInt 64 i))
-    | .litFloat bits => pure (.float (Float.ofBits bits))
+    | .litFloat bits => pure (.float bits)
     | .litStr s => pure (.str s)
     | .litUnit => pure .unit
     | .var x => match env.lookup x with
@@ -417,12 +432,12 @@ def eval : Nat → Env → Expr → M Val
       let t := it.asType
       let init : Val :=
         if Ty.sub t (tyIterOf .int) then .int 0
-        else if Ty.sub t (tyIterOf .float) then .float 0.0 else .str ""
+        else if Ty.sub t (tyIterOf .float) then .float F64.zero else .str ""
       reduceGo f it init (.inl .add)
     | .post .product e => do
       let it ← eval f env e
       let t := it.asType
-      let init : Val := if Ty.sub t (tyIterOf .int) then .int 1 else .float 1.0
+      let init : Val := if Ty.sub t (tyIterOf .int) then .int 1 else .float F64.one
       reduceGo f it init (.inl .mul)
     | .post .bitand e => do
       let it ← eval f env e
